@@ -939,6 +939,7 @@ type runCtx struct {
 	shared map[string]interface{} // default slices shared between declarations of this case
 	// afterRootDecls: called once, right after the root's own declarations (Version declared last)
 	afterRootDecls func()
+	app            *cli.Cli
 }
 
 func firstName(name string) string {
@@ -961,7 +962,7 @@ func (r *runCtx) snapshot() {
 	}
 }
 
-func (r *runCtx) hook(h *hookSpec, tag, path string, isAction bool) func() {
+func (r *runCtx) hook(h *hookSpec, tag, path string, isAction bool, cmd *cli.Cmd) func() {
 	if h == nil {
 		return nil
 	}
@@ -979,6 +980,13 @@ func (r *runCtx) hook(h *hookSpec, tag, path string, isAction bool) func() {
 			panic(UserPanic(h.V))
 		case "exit":
 			cli.Exit(h.N)
+		case "help":
+			// the public printing methods, called by the callback on its own command
+			cmd.PrintHelp()
+		case "longhelp":
+			cmd.PrintLongHelp()
+		case "version":
+			r.app.PrintVersion()
 		}
 	}
 }
@@ -997,13 +1005,13 @@ func (r *runCtx) configure(cmd *cli.Cmd, c *cmdSpec, path string) {
 	cmd.Spec = string(c.Spec)
 	cmd.LongDesc = string(c.LongDesc)
 	cmd.Hidden = c.Hidden
-	if f := r.hook(c.Before, "B", path, false); f != nil {
+	if f := r.hook(c.Before, "B", path, false, cmd); f != nil {
 		cmd.Before = f
 	}
-	if f := r.hook(c.Action, "A", path, true); f != nil {
+	if f := r.hook(c.Action, "A", path, true, cmd); f != nil {
 		cmd.Action = f
 	}
-	if f := r.hook(c.After, "F", path, false); f != nil {
+	if f := r.hook(c.After, "F", path, false, cmd); f != nil {
 		cmd.After = f
 	}
 	for _, sub := range c.Subs {
@@ -1013,9 +1021,10 @@ func (r *runCtx) configure(cmd *cli.Cmd, c *cmdSpec, path string) {
 		}
 		subPath := path + "/" + firstName(string(sub.Name))
 		if sub.Policy == nil && len(sub.Decls) == 0 && len(sub.Subs) == 0 && sub.Before == nil && sub.After == nil &&
-			len(sub.Spec) == 0 && len(sub.LongDesc) == 0 && !sub.Hidden {
+			len(sub.Spec) == 0 && len(sub.LongDesc) == 0 && !sub.Hidden &&
+			(sub.Action == nil || (sub.Action.K != "help" && sub.Action.K != "longhelp")) {
 			// a leaf that only has an Action: declared through the ActionCommand helper, as the README does
-			if f := r.hook(sub.Action, "A", subPath, true); f != nil {
+			if f := r.hook(sub.Action, "A", subPath, true, nil); f != nil {
 				cmd.Command(string(sub.Name), string(sub.Desc), cli.ActionCommand(f))
 				continue
 			}
@@ -1058,6 +1067,7 @@ func runCase(req *request, stderr *bytes.Buffer) *runOut {
 		root := req.Root
 		rootName := string(root.Name)
 		app := cli.App(rootName, string(root.Desc))
+		r.app = app
 		if root.Policy != nil && !root.PolicyLate {
 			app.ErrorHandling = flag.ErrorHandling(*root.Policy)
 		}
